@@ -558,4 +558,19 @@ def r10_every_searcher_is_asked(chk):
     r7_every_component_is_asked(chk, rule='C10.R10', meths=('fileExists',))
 
 
-RULES = [r1_searcher_protocol, r2_nodeps_filter, r3_file_searchers, r4_stub, r5_package_delegation, r6_argument_agreement, r7_guard_polarity, r8_wellformedness, t1_typestate, r9_source_time_in_whole_seconds, r10_every_searcher_is_asked]
+def r11_searchers_answer_from_configuration(chk):
+    """every configured searcher is asked, in order, for every module: its answer must not depend on earlier questions"""
+    common.lookups_leave_no_trace(chk, 'C10.R11', [('pysmi/searcher/pyfile.py', 'PyFileSearcher'),
+                                                   ('pysmi/searcher/pypackage.py', 'PyPackageSearcher'),
+                                                   ('pysmi/searcher/stub.py', 'StubSearcher'),
+                                                   ('pysmi/searcher/anyfile.py', 'AnyFileSearcher')], 'fileExists',
+                                  'searchers', audited={
+                                      ('PyPackageSearcher', '__loader'): 'the loader object of the zipped package: the '
+                                      'same object is stored on every call',
+                                      ('PyPackageSearcher', '_package'): 'dots replaced by the path separator once the '
+                                      'package turns out to be zipped; the replacement is idempotent and zipimport '
+                                      'resolves the path form on later calls (tried with a zipped two-level package: '
+                                      'three lookups in a row answer alike)'}, floor=4)
+
+
+RULES = [r1_searcher_protocol, r2_nodeps_filter, r3_file_searchers, r4_stub, r5_package_delegation, r6_argument_agreement, r7_guard_polarity, r8_wellformedness, t1_typestate, r9_source_time_in_whole_seconds, r10_every_searcher_is_asked, r11_searchers_answer_from_configuration]
